@@ -7,20 +7,21 @@ import (
 	"os"
 	"os/exec"
 	"path/filepath"
+	"runtime"
 	"strings"
 	"sync"
 	"time"
 )
 
 type Result struct {
-	Ob      *Oblig
-	Status  string // unsat, sat, unknown, timeout, error
-	Solver  string
-	TimeS   float64
-	File    string
-	Model   string
-	Output  string
-	Query   *Query
+	Ob     *Oblig
+	Status string // unsat, sat, unknown, timeout, error
+	Solver string
+	TimeS  float64
+	File   string
+	Model  string
+	Output string
+	Query  *Query
 }
 
 type solverSpec struct {
@@ -37,6 +38,13 @@ var solvers = []solverSpec{
 }
 
 func runSolver(ctx context.Context, s solverSpec, file string, timeoutS int) (status, out string, dur float64) {
+	// at most one solver process per core: a solver that shares its core runs into its time limit for
+	// reasons that have nothing to do with the query
+	solverSlots <- struct{}{}
+	defer func() { <-solverSlots }()
+	if ctx.Err() != nil {
+		return "timeout", "cancelled", 0
+	}
 	args := s.args(file, timeoutS)
 	start := time.Now()
 	cctx, cancel := context.WithTimeout(ctx, time.Duration(timeoutS+2)*time.Second)
@@ -154,6 +162,35 @@ func solveQuery(q *Query, dir string, timeoutS int, allSolvers bool) *Result {
 		return res
 	}
 	firstOut := out
+	if q.Ob.Canary || q.Ob.Cover {
+		// vacuity canaries want a model, which the solvers rarely build in the presence of quantified axioms
+		// (ghost-function axioms, the definitional idx_ axioms). Retry without the top-level quantified
+		// assertions of the prelude: a model of the path condition then shows that the requires clauses and
+		// the assumptions on the path are consistent among themselves (the axioms are trusted separately).
+		var kept []string
+		dropped := 0
+		for _, ln := range strings.Split(q.Text, "\n") {
+			if strings.HasPrefix(ln, "(assert (forall ") || strings.HasPrefix(ln, "(assert (! (forall ") {
+				dropped++
+				continue
+			}
+			kept = append(kept, ln)
+		}
+		if dropped > 0 {
+			file2 := filepath.Join(dir, sanitizeFile(q.Ob.Name)+".noax.smt2")
+			os.WriteFile(file2, []byte(strings.Join(kept, "\n")+"(get-model)\n"), 0o644)
+			st, out, _ := runSolver(ctx, solvers[0], file2, timeoutS)
+			if st == "sat" || st == "unsat" {
+				// unsat without the axioms is unsat with them
+				res.Status, res.Solver = st, solvers[0].name+"(no-axioms)"
+				if st == "sat" {
+					res.Model = out
+				}
+				res.TimeS = time.Since(start).Seconds()
+				return res
+			}
+		}
+	}
 	type r struct{ st, out, name string }
 	rctx, cancel := context.WithCancel(ctx)
 	defer cancel()
@@ -227,6 +264,8 @@ func solveFocused(ctx context.Context, q *Query, dir string, timeoutS int, all b
 	}
 	return &Result{Ob: q.Ob, File: file, Query: q, Status: "unsat", Solver: strings.Join(names, "+") + "(focused)"}
 }
+
+var solverSlots = make(chan struct{}, runtime.NumCPU())
 
 func firstLines(s string, n int) string {
 	lines := strings.Split(strings.TrimSpace(s), "\n")
